@@ -45,7 +45,7 @@ REPORT_WRAPS_BOUND = True
 # re-runs its selection on the translator the outer getter built, where the
 # parameters are already moved ("'c' not found").
 # Reported as C12:stack-bound-rerun only when this is True.
-REPORT_STACK_BOUND = True
+REPORT_STACK_BOUND = os.environ.get('C12_REPORT_STACK_BOUND', '1') != '0'   # reported unless switched off explicitly
 
 
 # ---------------------------------------------------------------- argument values
@@ -764,6 +764,8 @@ def show_canon(c):
 # several classes (through the class), looked up in a given order first.
 #   shared = {'forms': [...], 'mode': 'instance' | 'class' | 'classes', 'order': [...], 'index': i}
 def _form_to(form):
+    if form[0] == 'K':
+        return ['K', _form_to(form[1]), _form_to(form[2])]
     return [form[0]] + [list(x) if isinstance(x, tuple) else x for x in form[1:]]
 
 
@@ -1474,7 +1476,7 @@ def run(ctx, rep):
                        'differs', 'see call')
     for v in deferred:
         rep.violation(*v)
-    rep.evaluations = stats['decorated'] + stats['calls']
+    rep.evaluations = stats['decorated'] + stats['calls'] + stats['value_calls']
     rep.coverage.update(stats)
     rep.coverage['forms'] = formkinds
     rep.coverage['functions'] = len(fns)
@@ -1485,7 +1487,7 @@ def run(ctx, rep):
                 'distinguishable defaults, annotations on a third) x decorator forms (every none/posoargs/kwoargs '
                 'assignment of the regular parameters, stacked both ways, irregular names, start=, end= for every '
                 'name, autokwoargs with every exceptions subset) x direct call and instance access x every call '
-                'shape (positional count 0..n+1 x every keyword subset incl. foreign z) with distinguishable values; '
+                'shape (positional count 0..n+1 x every keyword subset incl. foreign z) with distinguishable values, and every shape again with every named value None and with a random non-empty subset of the arguments carrying None / inspect.Parameter.empty / 0 / False / \'\' / NotImplemented / _util.UNSET / a falsy object equal to everything (compared by identity); stacks of two and three decorators over the regular parameters (named, start=, end=, autokwoargs layers) sampled from three classes: each layer admissible but together both kinds, otherwise inadmissible, admissible; '
                 'plus decorated callables re-observed after a second decorator was built on top, one decorator object applied to three functions, and one function object decorated 2-3 times with different selections in one class / several classes, looked up in shuffled order on one instance and on the class; distinct = decorated functions whose advertised signature differs from the original or that raise'
                 % ('samples of U(3,{a,b,c}) and U(4,{a..d})' if ctx.quick else 'U(3,{a,b,c}) + sample of U(4,{a..d})'))
     for c in model_cases[3:6] + model_cases[-3:]:
@@ -1495,6 +1497,8 @@ def run(ctx, rep):
         'calls passing a positional-only name by keyword alongside **kwargs are excluded (version-dependent)',
         'keyword arguments of one call have pairwise different names (guaranteed by Python)',
         'bound methods: selections naming the first parameter are reported separately (C12:bound-self-selected)',
+        'stacks of decorators: instance access is decided for admissible stacks that do not select the first parameter; stacks with a start= / end= layer are probed separately, their instance access fails on the unchanged tree (counted in stacked_decorators.bound_with_start_end_layer_failing, key C12:stack-bound-rerun)',
+        'the start= / end= / exceptions= selection of an outer decorator of a stack is taken on the signature the inner result advertises; the layers together are one selection of the original function',
         'after functools.wraps(other translator)(translator) only direct calls and class-level lookup are decided; instance access then fails on the unchanged tree (counted as after_functools_wraps_instance_access_failing, key C12:wraps-bound-copy)',
     ]
 
@@ -1519,6 +1523,8 @@ class _Rep(object):
 
 
 def _form_from(l):
+    if l[0] == 'K':
+        return ('K', _form_from(l[1]), _form_from(l[2]))
     if l[0] == 'X':
         return ('X', tuple(l[1]), tuple(l[2]), l[3])
     if l[0] in ('S', 'E'):
